@@ -1,5 +1,5 @@
 SPECIFICATION Spec
 CONSTANTS Variant = "as_built"
- MaxOps = 2
+ MaxOps = 3
 INVARIANTS NoRace NoDeadlock
 CHECK_DEADLOCK FALSE
